@@ -222,6 +222,9 @@ type Model struct {
 	AllowNoSpc bool
 	// ForceSync: the server runs with its unstable option off: every WRITE is FILE_SYNC
 	ForceSync bool
+	// SubRoot: the reference covers only the subtree below one directory
+	// (its "root"); the parent of that directory is outside
+	SubRoot bool
 	// statistics
 	NoSpcFollowed int
 	liveCache     []*MObj // sorted live objects; dropped whenever an object is created or dies
@@ -240,7 +243,7 @@ func NewModel(rootFH []byte, lim Limits) *Model {
 // Clone makes a deep copy (pages are shared copy-on-write: writers replace
 // page slices, never mutate them).
 func (m *Model) Clone() *Model {
-	n := &Model{Objs: make(map[int]*MObj, len(m.Objs)), Root: m.Root, next: m.next, byFH: make(map[string]int, len(m.byFH)), Lim: m.Lim, AllowNoSpc: m.AllowNoSpc, ForceSync: m.ForceSync}
+	n := &Model{Objs: make(map[int]*MObj, len(m.Objs)), Root: m.Root, next: m.next, byFH: make(map[string]int, len(m.byFH)), Lim: m.Lim, AllowNoSpc: m.AllowNoSpc, ForceSync: m.ForceSync, SubRoot: m.SubRoot}
 	for id, o := range m.Objs {
 		c := *o
 		if o.Pages != nil {
@@ -604,6 +607,9 @@ func (m *Model) expect(op *Op) (int, effect) {
 			}
 		}
 	case OpLookup:
+		if m.SubRoot && o.ID == m.Root && op.Name == ".." && o.Kind == KDir {
+			return expOK, nop // the reference covers a subtree: its parent is outside
+		}
 		t := m.lookupIn(o, op.Name)
 		if t == nil {
 			return expFail, nop
@@ -843,6 +849,9 @@ func (m *Model) checkPage(d *Diff, o *MObj, op *Op, r *Res) {
 			d.add("%s: name %s twice in one page", op.K, shortName(e.Name))
 		}
 		seen[e.Name] = true
+		if m.SubRoot && o.ID == m.Root && e.Name == ".." {
+			continue // the parent is outside the reference
+		}
 		t := m.lookupIn(o, e.Name)
 		if t == nil {
 			d.add("%s: entry %s is not in the reference directory", op.K, shortName(e.Name))
